@@ -33,6 +33,8 @@ def cchar(c):
 
 
 def render(e, names):
+    if e[0] in ("try_catch_type_return_false", "try_catch_type_raise_nested"):
+        return "%s< %s, %s >" % (e[0], e[1], ", ".join(render(x, names) for x in e[2:]))
     """C++ type expression for e; names[k] is the C++ name of rule k"""
     op = e[0]
     a = e[1:]
@@ -56,9 +58,11 @@ def render(e, names):
     if op == "rep_min_max":
         return "rep_min_max< %d, %d, %s >" % (a[0], a[1], ", ".join(render(x, names) for x in a[2:]))
     if op == "raise":
-        return "raise< %s >" % render(a[0], names)
+        return "tao::pegtl::raise< %s >" % render(a[0], names)   # ::raise(int) from <csignal> is also in scope
     if op == "action":
-        return "action< vt::fam%d, %s >" % (a[0], ", ".join(render(x, names) for x in a[1:]))
+        return "action< %s, %s >" % ("vt::fam%d" % a[0] if a[0] else "nothing", ", ".join(render(x, names) for x in a[1:]))
+    if op in ("if_apply", "apply", "apply0"):
+        return "%s< %s >" % (op, ", ".join(x if isinstance(x, str) else render(x, names) for x in a))
     if op in ("try_catch_type_return_false", "try_catch_type_raise_nested"):
         return "%s< %s, %s >" % (op, a[0], ", ".join(render(x, names) for x in a[1:]))
     if op == "raw":
@@ -269,6 +273,14 @@ def rand_expr(rng, atoms, ops, depth, nrefs=0, p_ref=0.25):
         return (name,) + tuple(sub() for _ in range(rng.choice([1, 2, 2, 3])))
     if spec == "v2":
         return (name,) + tuple(sub() for _ in range(rng.choice([2, 2, 3])))
+    if spec == "act":       # action< famN, R >
+        return (name, rng.choice([0, 1, 2]), sub())
+    if spec == "ifa":       # if_apply< R, As... >
+        n = rng.choice([0, 1, 1, 2])
+        return (name, sub()) + tuple(rng.choice(["vt::ia_v< %d >", "vt::ia_b< %d >"]) % rng.randint(1, 4) for _ in range(n))
+    if spec == "app":       # apply< As... > / apply0< As... >
+        n = rng.choice([1, 1, 2])
+        return (name,) + tuple(rng.choice(["vt::ia_v< %d >", "vt::ia_b< %d >"]) % rng.randint(1, 4) for _ in range(n))
     if spec[0] == "n":
         return (name, rng.randint(spec[1], spec[2])) + tuple(sub() for _ in range(rng.choice([1, 1, 2])))
     if spec[0] == "nn":
